@@ -17,6 +17,7 @@ package main
 // its havoc writes (field cells, array rows, ghost cells).
 
 import (
+	"fmt"
 	"os"
 	"go/ast"
 	"go/types"
@@ -114,6 +115,11 @@ func (c *FnCtx) frameCheck(fr *frame, con *Contract, rst *State, ec *evalCtx) {
 	// "modifies heap" allows any change of real memory; ghost fields are
 	// specification state and stay under the frame discipline
 	covers, all := c.frameCovers(fr, con, ec)
+	if os.Getenv("GOVC_DEBUGFRAME") != "" {
+		for _, cv := range covers {
+			fmt.Fprintf(os.Stderr, "cover %s: key=%s ref=%s lo=%s hi=%s cond=%s\n", fr.fn.Name(), cv.key, cv.ref, cv.lo, cv.hi, cv.cond)
+		}
+	}
 	// guarded fields of monitor types change at scheduling points
 	if fr.fn.Pkg != nil {
 		pkg := fr.fn.Pkg.Pkg
